@@ -51,6 +51,15 @@ PROPS = {
         'assumptions': ['x << y modelled as x * POW2(y) with POW2 uninterpreted and positive (same term in code and spec)'],
         'level': 'proof',
     },
+    'C15': {
+        'modules': ['contracts.c15_deps'],
+        'standins': ['isar_order'],
+        'trusted': PYVC_TRUST + ['re.findall tokenisation of identifiers (_expression_symbols)'],
+        'assumptions': ['topological_sort itself (closures mutating a shared index, hybrid sets) is out of reach of PyVC as built: bounded stand-in only',
+                        'sack input needs libclang Python bindings that are not installed: not checked'],
+        'level': 'other',
+        'explanation': 'dependencies() of every node kind are under contract (proved); topological_sort is decided by the bounded stand-in only',
+    },
     'C19': {
         'modules': ['contracts.c01_encode', 'contracts.c01_arrays', 'contracts.c01_wrappers', 'contracts.c04_runtime'],
         'standins': ['py_codec'],
